@@ -147,6 +147,10 @@ class FitResult(HoloPyObject):
         xr_kw = {}
         yaml_kw = {}
         for key in self._kwargs_keys:
+            if key in ['_hologram', '_guess_hologram']:
+                # lazily computed caches: never read back by _unserialize,
+                # and unsaveable for flattened data. Recomputed on demand.
+                continue
             attr = getattr(self, key)
             kwdict = xr_kw if isinstance(attr, xr.DataArray) else yaml_kw
             kwdict[key] = copy(attr)
